@@ -77,8 +77,12 @@ def get_convergence_format(epsilon: float, max_decimals: int = 10) -> str:
 
     # Get number of decimal places needed to show changes above epsilon
     # Add 1 to ensure we can see changes until below epsilon
-    decimal_places = -int(np.floor(np.log10(epsilon))) + 1
-    # Cap at max_decimals
-    decimal_places = min(decimal_places, max_decimals)
+    if np.isinf(epsilon):
+        # An infinite threshold (e.g. gamma == 0) needs no decimal places
+        decimal_places = 0
+    else:
+        decimal_places = -int(np.floor(np.log10(epsilon))) + 1
+    # Cap at max_decimals, and never go below zero (thresholds of 100 or more)
+    decimal_places = max(0, min(decimal_places, max_decimals))
 
     return f".{decimal_places}f"
